@@ -181,6 +181,9 @@ class M2FDriver:
     def call(self, fmt, x, flush, proto):
         """-> (result or None, raised)."""
         dt = bits.FLOAT[fmt]
+        # the flag phrased in every way a caller may (Python bool / numpy.bool_ / int), in rotation
+        self.ncall = getattr(self, "ncall", 0) + 1
+        flush = bool(flush) if self.ncall % 3 == 0 else numpy.bool_(bool(flush)) if self.ncall % 3 == 1 else int(bool(flush))
         try:
             with warnings.catch_warnings(), numpy.errstate(all="ignore"):
                 warnings.simplefilter("ignore")
@@ -339,13 +342,23 @@ class BackendDriver:
         # one backend object per configuration (constructing one clones five mpmath contexts)
         key = (fn, flush, xp, xm, pass_zero)
         if key not in self.cache:
-            self.cache[key] = self.make_func(fn, flush, xp, xm, pass_zero)
+            # an explicit flag is constructed while the module-level default says the OPPOSITE (it must win), in one of the
+            # three phrasings of a flag; an unspecified flag under the shipped default
+            u = self.utils
+            saved = u.default_flush_subnormals
+            try:
+                if flush != "unspec":
+                    u.default_flush_subnormals = flush != "true"
+                self.cache[key] = self.make_func(fn, flush, xp, xm, pass_zero)
+            finally:
+                u.default_flush_subnormals = saved
         return self.cache[key]
 
     def make_func(self, fn, flush, xp, xm, pass_zero):
         kw = {}
         if flush != "unspec":
-            kw["flush_subnormals"] = flush == "true"
+            form = (len(self.cache) + len(fn)) % 3
+            kw["flush_subnormals"] = (flush == "true") if form == 0 else numpy.bool_(flush == "true") if form == 1 else int(flush == "true")
         if xp or pass_zero:
             kw["extra_prec"] = xp
         if xm or pass_zero:
